@@ -290,7 +290,7 @@ func RandLeaf(r *rand.Rand, sugar bool) *Cond {
 			case 1:
 				c.Proto = "icmp"
 			case 50:
-				c.Proto = "esp"
+				c.Proto = "ipsec-esp" // linux protocol table name
 			}
 		}
 	}
